@@ -32,6 +32,31 @@ import (
 const prelude = `
 var __util = require("util"), __bufmod = require("buffer"), __urlmod = require("url"), __proc = require("process");
 var __live = [];   // timer handles created by value factories, cleared after each case
+var __slots = [];  // objects of the current session: receivers and results of earlier steps
+function __resetSlots(adv) {
+  var p = new URLSearchParams("a=1&b=2&a=3&c=4");
+  var u = new URL("http://u:p@a.b:81/c/d?e=f&g=h&e=i#j");
+  var it1 = p.entries(), it2 = p.keys(), it3 = u.searchParams.values();
+  // iterators in the middle of their walk
+  for (var i = 0; i < adv % 6; i++) it1.next();
+  for (var j = 0; j < (adv + 2) % 5; j++) it2.next();
+  for (var k = 0; k < (adv + 1) % 4; k++) it3.next();
+  __slots = [Buffer.from([1, 2, 3, 4, 5, 6, 7, 8, 9, 250, 251, 252, 253, 254, 255, 0]), u, p, it1, u.searchParams, it2, it3];
+}
+// what a hostile conversion or callback does to the objects under operation
+function __shrink() {
+  __slots.forEach(function (s) {
+    try {
+      if (s instanceof URLSearchParams) Array.from(s.keys()).forEach(function (k) { s.delete(k); });
+      else if (s instanceof URL) { s.search = ""; }
+    } catch (e) {}
+  });
+}
+function __grow() {
+  __slots.forEach(function (s) {
+    try { if (s instanceof URLSearchParams) for (var i = 0; i < 40; i++) s.append("k" + i, "v"); } catch (e) {}
+  });
+}
 var __vals = [
   function () { return undefined; }, function () { return null; }, function () { return true; }, function () { return false; },
   function () { return 0; }, function () { return -0; }, function () { return NaN; }, function () { return Infinity; },
@@ -46,7 +71,8 @@ var __vals = [
   function () { return "\ud800"; }, function () { return "%"; }, function () { return "hex"; }, function () { return "utf8"; },
   function () { return "base64"; }, function () { return "latin1"; }, function () { return "6162zz"; }, function () { return "YWJj"; },
   function () { return "http://a/b?c=d#e"; }, function () { return "./m.js"; }, function () { return "node:buffer"; },
-  function () { return "%s %d %j %%"; }, function () { return "é😀"; }, function () { return "-1"; }, function () { return "1e3"; },
+  function () { return "%s %d %j %%"; }, function () { return "é😀"; }, function () { return "b"; }, function () { return "c"; },
+  function () { return "e"; }, function () { return "g"; }, function () { return "x=1&y=2"; }, function () { return "?"; }, function () { return "-1"; }, function () { return "1e3"; },
   function () { return Symbol("s"); }, function () { return Symbol.iterator; },
   function () { return {}; }, function () { return []; }, function () { return [1, 2, 3]; }, function () { return [[1, 2], [3, 4]]; },
   function () { return [["a", "b"], ["c"]]; }, function () { return { length: -1 }; }, function () { return { length: 1e30 }; },
@@ -79,7 +105,14 @@ var __vals = [
   function () { return new Error("e"); }, function () { return new Map([[1, 2]]); }, function () { return new Set([1]); },
   function () { return Buffer; }, function () { return URL; }, function () { return Buffer.prototype; },
   function () { return URLSearchParams.prototype; }, function () { return process.env; }, function () { return console; },
-  function () { return arguments; }, function () { return globalThis; }
+  function () { return arguments; }, function () { return globalThis; },
+  // re-entrant: conversions and callbacks that change the objects under operation
+  function () { return { toString: function () { __shrink(); return "a"; } }; },
+  function () { return { toString: function () { __grow(); return "a"; } }; },
+  function () { return { valueOf: function () { __shrink(); return 1; } }; },
+  function () { return function () { __shrink(); }; },
+  function () { return function () { __grow(); }; },
+  function () { var o = {}; o[Symbol.toPrimitive] = function () { __shrink(); return "1"; }; return o; }
 ];
 var __targets = {};
 function __add(name, kind, fn, owner) { if (typeof fn === "function") __targets[name + "#" + kind] = { kind: kind, fn: fn, owner: owner }; }
@@ -143,18 +176,36 @@ function __classes() {
   while (__live.length) { var l = __live.pop(); try { l[0](l[1]); } catch (e4) {} }
   return c;
 }
+function __properSlot(tname, t) {
+  var want = tname.indexOf("Buffer.prototype.") >= 0 ? Buffer : tname.indexOf("URL.prototype.") >= 0 ? URL :
+             tname.indexOf("URLSearchParams.prototype.") >= 0 ? URLSearchParams : null;
+  if (tname.indexOf("URLSearchParamsIterator.prototype.") >= 0) {
+    for (var i = __slots.length - 1; i >= 0; i--) { var s = __slots[i]; if (s && typeof s.next === "function") return s; }
+  }
+  if (want) for (var j = __slots.length - 1; j >= 0; j--) if (__slots[j] instanceof want) return __slots[j];
+  return __proper(tname, t);
+}
+function __session(steps, adv) {
+  __resetSlots(adv);
+  var out = [];
+  for (var i = 0; i < steps.length; i++) out.push(__run(steps[i].t, steps[i].this, steps[i].args));
+  __slots = [];
+  return out.join(" ");
+}
 function __run(tname, thisIdx, argIdx) {
   var t = __targets[tname];
   if (!t) return "notarget";
   var res;
   try {
-    var thisV = thisIdx === -1 ? t.owner : thisIdx === -2 ? __proper(tname, t) : __vals[thisIdx]();
+    var thisV = thisIdx === -1 ? t.owner : thisIdx === -2 ? __proper(tname, t) : thisIdx === -3 ? __properSlot(tname, t) :
+                thisIdx <= -10 ? __slots[(-10 - thisIdx) % __slots.length] : __vals[thisIdx]();
     var args = argIdx.map(function (i) { return __vals[i](); });
     var r;
     if (t.kind === "new") r = Reflect.construct(t.fn, args);
     else r = t.fn.apply(thisV, args);
-    // results are touched too: iterators advanced, strings built
-    if (r && typeof r === "object" && typeof r.next === "function") { for (var i = 0; i < 5; i++) r.next(); }
+    // results are kept for later steps of the session and touched: iterators advanced, strings built
+    if (r && (typeof r === "object" || typeof r === "function") && __slots.length < 24) __slots.push(r);
+    if (r && typeof r === "object" && typeof r.next === "function") { for (var i = 0; i < 2; i++) r.next(); }
     if (r && typeof r === "object" && typeof r.toString === "function") { try { String(r); } catch (e2) { if (!(e2 instanceof Error)) throw e2; } }
     res = "ok";
   } catch (e) {
@@ -171,10 +222,16 @@ function __run(tname, thisIdx, argIdx) {
 }
 `
 
-type ccase struct {
+type step struct {
 	T    string `json:"t"`
 	This int    `json:"this"`
 	Args []int  `json:"args"`
+}
+
+// ccase: a session of 1-4 calls sharing the session's objects (receivers, results of earlier calls)
+type ccase struct {
+	Steps []step `json:"steps"`
+	Adv   int    `json:"adv"` // how far the session's iterators have been advanced before the first call
 }
 
 type fuzzer struct {
@@ -183,6 +240,8 @@ type fuzzer struct {
 	names   []string
 	nvals   int
 	classes map[string][]int
+	good    map[string][]step // per target: calls that returned or threw something other than a TypeError
+	goodT   []string
 	st      *hx.Stats
 	rng     *hx.Rng
 	w       *bufio.Writer
@@ -218,7 +277,7 @@ func newLoop() (*eventloop.EventLoop, goja.Callable, []string, int, map[string][
 			fmt.Fprintln(os.Stderr, "prelude:", err)
 			os.Exit(2)
 		}
-		run, _ = goja.AssertFunction(vm.Get("__run"))
+		run, _ = goja.AssertFunction(vm.Get("__session"))
 		v, _ := vm.RunString("__targetNames()")
 		vm.ExportTo(v, &names)
 		nvals = int(vm.Get("__vals").ToObject(vm).Get("length").ToInteger())
@@ -265,7 +324,11 @@ func (f *fuzzer) exec(c ccase) string {
 				resCh <- "PANIC " + strings.ReplaceAll(fmt.Sprint(r), "\n", " ")
 			}
 		}()
-		res, err := f.run(goja.Undefined(), vm.ToValue(c.T), vm.ToValue(c.This), vm.ToValue(c.Args))
+		steps := make([]interface{}, len(c.Steps))
+		for i, st := range c.Steps {
+			steps[i] = map[string]interface{}{"t": st.T, "this": st.This, "args": st.Args}
+		}
+		res, err := f.run(goja.Undefined(), vm.ToValue(steps), vm.ToValue(c.Adv))
 		if err != nil {
 			resCh <- "UNCAUGHT " + strings.ReplaceAll(err.Error(), "\n", " ")
 			return
@@ -283,30 +346,93 @@ func (f *fuzzer) exec(c ccase) string {
 	}
 }
 
-func (f *fuzzer) emit(c ccase) {
+func (f *fuzzer) emit(c ccase) string {
 	jb, _ := json.Marshal(c)
 	fmt.Fprintf(f.w, "#C09JSON %s\n", jb)
 	f.w.Flush() // announced before it runs: a crash of the process is attributed to this case
 	res := f.exec(c)
-	args := make([]string, len(c.Args))
-	for i, a := range c.Args {
-		args[i] = fmt.Sprint(a)
+	var desc []string
+	for _, st := range c.Steps {
+		args := make([]string, len(st.Args))
+		for i, a := range st.Args {
+			args[i] = fmt.Sprint(a)
+		}
+		as := strings.Join(args, ",")
+		if as == "" {
+			as = "-"
+		}
+		desc = append(desc, fmt.Sprintf("%s:%d:%s", strings.ReplaceAll(st.T, " ", "_"), st.This, as))
 	}
-	as := strings.Join(args, ",")
-	if as == "" {
-		as = "-"
+	fmt.Fprintf(f.w, "C09 %s => %s\n", strings.Join(desc, ";"), res)
+	for _, r := range strings.Split(res, " ") {
+		if strings.HasPrefix(r, "ok") || strings.HasPrefix(r, "throw:") {
+			f.st.Hit("result:" + r)
+		}
 	}
-	fmt.Fprintf(f.w, "C09 %s %d %s => %s\n", strings.ReplaceAll(c.T, " ", "_"), c.This, as, res)
-	kind := res
-	if i := strings.IndexByte(kind, ' '); i > 0 {
-		kind = kind[:i]
-	}
-	f.st.Hit("result:" + kind)
 	if res == "HANG" || strings.HasPrefix(res, "PANIC") || res == "LOOPDEAD" {
 		// the loop goroutine is gone or stuck: nothing more can be run in this process
 		f.w.Flush()
 		os.Exit(3)
 	}
+	return res
+}
+
+var families = []string{"Buffer", "URLSearchParams", "URL.", "Timeout|Interval|Immediate", "util|console|process|require"}
+
+func inFamily(name, fam string) bool {
+	for _, p := range strings.Split(fam, "|") {
+		if strings.Contains(name, p) {
+			return true
+		}
+	}
+	return false
+}
+
+// genStep: a fresh random call; most calls of a session stay within one family of targets
+func (f *fuzzer) genStep(fam string) step {
+	t := f.names[f.rng.Intn(len(f.names))]
+	if fam != "" && f.rng.Chance(80) {
+		for k := 0; k < 20 && !inFamily(t, fam); k++ {
+			t = f.names[f.rng.Intn(len(f.names))]
+		}
+	}
+	st := step{T: t, This: -3, Args: []int{}}
+	switch x := f.rng.Intn(100); {
+	case x < 12:
+		st.This = f.rng.Intn(f.nvals)
+	case x < 20:
+		st.This = -10 - f.rng.Intn(24) // any object of the session
+	case x < 24:
+		st.This = -1
+	}
+	na := f.rng.Intn(6)
+	for j := 0; j < na; j++ {
+		st.Args = append(st.Args, f.pickVal())
+	}
+	return st
+}
+
+// mutate: a call that got past the argument checks before, with one position changed
+func (f *fuzzer) mutate(s step) step {
+	m := step{T: s.T, This: s.This, Args: append([]int{}, s.Args...)}
+	switch x := f.rng.Intn(100); {
+	case x < 60 && len(m.Args) > 0:
+		m.Args[f.rng.Intn(len(m.Args))] = f.pickVal()
+	case x < 75 && len(m.Args) < 6:
+		m.Args = append(m.Args, f.pickVal())
+	case x < 85 && len(m.Args) > 0:
+		m.Args = m.Args[:len(m.Args)-1]
+	case x < 93:
+		m.This = -10 - f.rng.Intn(24)
+	default:
+		if len(m.Args) > 1 {
+			i, j := f.rng.Intn(len(m.Args)), f.rng.Intn(len(m.Args))
+			m.Args[i], m.Args[j] = m.Args[j], m.Args[i]
+		} else {
+			m.Args = append(m.Args, f.pickVal())
+		}
+	}
+	return m
 }
 
 func main() {
@@ -335,7 +461,7 @@ func main() {
 				line := strings.TrimSpace(sc.Text())
 				if strings.HasPrefix(line, "C09JSON ") {
 					var c ccase
-					if json.Unmarshal([]byte(line[8:]), &c) == nil && c.T != "" {
+					if json.Unmarshal([]byte(line[8:]), &c) == nil && len(c.Steps) > 0 {
 						f.st.Hit("source:corpus")
 						f.emit(c)
 					}
@@ -344,27 +470,54 @@ func main() {
 			fh.Close()
 		}
 	}
-	// first: every target once with its own owner as receiver and no arguments, then random calls
+	// first: every target once with a proper receiver and no arguments; then sessions of 1-4 calls.  Half of the
+	// calls are mutations of calls that got past the argument checks earlier in this run (returned, or threw
+	// something other than a TypeError), so that the code behind the checks is reached often.
+	f.good = map[string][]step{}
+	remember := func(c ccase, res string) {
+		rs := strings.Split(res, " ")
+		for i, st := range c.Steps {
+			if i < len(rs) && (rs[i] == "ok" || (strings.HasPrefix(rs[i], "throw:") && rs[i] != "throw:TypeError")) {
+				if _, seen := f.good[st.T]; !seen {
+					f.goodT = append(f.goodT, st.T)
+				}
+				if g := f.good[st.T]; len(g) < 24 {
+					f.good[st.T] = append(g, st)
+				} else {
+					g[f.rng.Intn(len(g))] = st
+				}
+			}
+		}
+	}
 	i := 0
 	for ; i < len(names) && i < *n; i++ {
-		f.emit(ccase{T: names[i], This: -2, Args: []int{}})
+		c := ccase{Steps: []step{{T: names[i], This: -2, Args: []int{}}}}
+		remember(c, f.emit(c))
 	}
 	for ; i < *n; i++ {
-		t := names[f.rng.Intn(len(names))]
-		c := ccase{T: t, This: -1, Args: []int{}}
-		if f.rng.Chance(15) {
-			c.This = f.rng.Intn(nvals)
-		} else if f.rng.Chance(85) {
-			// a plausible receiver for prototype methods: a Buffer, URL, URLSearchParams or iterator from the pool
-			c.This = -2
+		var c ccase
+		c.Adv = f.rng.Intn(30)
+		ns := 1 + f.rng.Intn(4)
+		fam := ""
+		if f.rng.Chance(75) {
+			fam = families[f.rng.Intn(len(families))]
 		}
-		na := f.rng.Intn(6)
-		for j := 0; j < na; j++ {
-			c.Args = append(c.Args, f.pickVal())
+		for k := 0; k < ns; k++ {
+			if len(f.goodT) > 0 && f.rng.Chance(55) {
+				t := f.goodT[f.rng.Intn(len(f.goodT))]
+				for q := 0; q < 20 && fam != "" && !inFamily(t, fam); q++ {
+					t = f.goodT[f.rng.Intn(len(f.goodT))]
+				}
+				g := f.good[t]
+				c.Steps = append(c.Steps, f.mutate(g[f.rng.Intn(len(g))]))
+				f.st.Hit("gen:mutated")
+			} else {
+				c.Steps = append(c.Steps, f.genStep(fam))
+				f.st.Hit("gen:fresh")
+			}
 		}
-		f.st.Hit("target:" + strings.SplitN(t, ".", 2)[0])
-		f.st.Hit(fmt.Sprintf("arity:%d", na))
-		f.emit(c)
+		f.st.Hit(fmt.Sprintf("session-length:%d", ns))
+		remember(c, f.emit(c))
 	}
 	if *statsPath != "" {
 		f.st.WriteJSON(*statsPath, map[string]interface{}{"seed": *seed, "targets": len(names), "values": nvals})
@@ -374,7 +527,7 @@ func main() {
 	select {
 	case <-done:
 	case <-time.After(10 * time.Second):
-		fmt.Fprintln(f.w, "C09 Terminate -1 - => HANG")
+		fmt.Fprintln(f.w, "C09 Terminate:-1:- => HANG")
 		f.w.Flush()
 		os.Exit(3)
 	}
